@@ -1,18 +1,19 @@
 from common import COMMON_TB
 
 CFG = {
-    "technique": "Lean 4 theorems about conflict removal in the wtxmgr model and about the reference semantics (Ledger.apply) + differential run: model = Ledger specification = real wtxmgr.Store on generated consistent histories, and Go<->Go comparison of all observables on pairs (history with connect/disconnect/reconnect cycles vs direct construction of its final facts on a fresh store)",
-    "level_text": "Proved for every store/ledger/transaction: removeConflict (used for confirmed double spends, abandonment and spenders of detached coinbases) removes the transaction, never touches the mined part of the store and never adds or alters an unconfirmed record; after a successful Rollback(h) no block record >= h is left and records < h are unchanged; an unconfirmed insert removes nothing (conflicting unconfirmed txs coexist); Ledger.apply for `disconnected`/`confirmed` is the C02 sentence (blocks >= h vanish, non-coinbase txs not depending on a detached coinbase become unconfirmed with credits intact, unrelated unconfirmed txs stay).",
-    "level_note": "PARTIAL: that rollback/insertMinedTx realise Ledger.apply on the store (C02_disconnect, C02_confirm) and path independence are NOT theorems (the store invariant WF2 IS preserved by rollback and insertMinedTx: see C01, Lemmas/WFRollback.lean); they are checked at run time on every generated history (model = spec = Go, op by op) and on pairs (Go<->Go: oracle key path-independence). Former findings, fixed in /repo 2c7f685 / 7fa9939: spender of a non-credited coinbase output kept on rollback (now C02_rollback_remembers_every_coinbase_output), zero-value credits; reverting either fix yields VIOLATION with replay.",
+    "technique": "Lean 4 refinement proof: rollback / insertMinedTx / RemoveUnminedTx realise Ledger.apply on every store that refines a well-formed ledger; path independence as a theorem over all pairs of chain-consistent histories with equal final facts + differential run: model = Ledger specification = real wtxmgr.Store on generated consistent histories, Go<->Go comparison of all observables on pairs, refinement relation evaluated after every event (refcheck/reffuzz)",
+    "level_text": "C02_disconnect: on every good pair Rollback(h), any h, succeeds and the result refines Ledger.apply (disconnected h): blocks >= h gone, their non-coinbase transactions unconfirmed again with credits intact, their coinbases and every unconfirmed transaction (transitively) spending them gone. C02_confirm: for a chain-consistent confirmation the calls of wallet.addRelevantTx succeed and refine Ledger.apply (confirmed): conflicting unconfirmed transactions and all their descendants disappear, unrelated ones stay. C02_abandon likewise. C02_refines: after every chain-consistent history the store refines the ledger. C02_path_independence: two chain-consistent histories (any connect/disconnect/reconnect orders) whose final ledgers hold the same facts (same blocks with the same tx sets, same unconfirmed set, same credited outputs, leases, clock) give equal Balance for all maturity/minConf/syncHeight, the same UnspentOutputs set and, for every hash, the same TxDetails answer (same tx, same block, same credit/debit records as sets). Store-level theorems kept (removeConflict, rollback blocks, coinbase outputs remembered).",
+    "level_note": "No _partial left for C02. Order dependence that remains and is stated in C02_path_independence: the order of transactions inside one block record / the unconfirmed batch of RangeTransactions follows insertion resp. hash order (the oracle sorts each batch by hash); record lists inside TxDetails are compared as sets (bucket order vs index order). Former findings, fixed in /repo 2c7f685 / 7fa9939; reverting either fix yields VIOLATION with replay.",
     "lean_props": ["BtcwVerif.Props.C02"],
     "engines": ["txstore"],
     "trusted_base": COMMON_TB + [
         "hand-written model BtcwVerif/Model/TxStore.lean of wtxmgr/{tx,unconfirmed,query,db}.go (tied by the differential run incl. full bucket dumps)",
         "BtcwVerif/Model/Ledger.lean (specification) is cross-checked against an independent Go implementation of the same sentences (harness/engines/txstore/oracle.go)",
         "bbolt: ordered buckets with unique keys, atomic Update (C11's assumption)",
+        "Lemmas/Ref*.lean: simulation relation Good = WF2 (store invariant) + LWF (ledger well-formedness) + Refines (bucket by bucket: find? k = some v <-> (k,v) in the ledger's expectation Ledger.exp...; executable form refinesB evaluated by the driver after every event: ops refcheck / reffuzz)",
     ],
     "assumptions": [
         "hashes identify transactions (no cycles among unconfirmed transactions: removeConflict's recursion is bounded by the size of the unconfirmed bucket)",
-        "chain consistency as defined by Ledger.consistent (one block per height, no confirmed double spend, parents first, redelivery allowed, conflicting unconfirmed txs may coexist)",
+        "chain consistency of the next event = TxStore.Consistent: Ledger.consistent (one block per height, a tx confirmed in one block, no confirmed double spend, no duplicated input, parents delivered first and confirmed at or below their children, coinbases never unconfirmed, redelivery allowed, conflicting unconfirmed txs may coexist) + Ledger.extra (an input naming a known tx names one of its outputs; no unconfirmed tx conflicting with a confirmed one is delivered; `abandoned` names the unconfirmed tx with that hash) + a tx has < 2^32-1 outputs and does not spend an output of itself",
     ],
 }
